@@ -462,7 +462,7 @@ theorem recover_true {T : PTables} {e : Nat} {input : List Nat} {ps ps' : PState
         rcases hf : firstAcceptable T input s' ps.next ps.ntok with _ | ⟨j, t⟩
         · rw [hf] at h1; cases h1
         · obtain ⟨rfl, f2, f3⟩ := firstAcceptable_eq_some_iff.mp hf
-          exact ⟨k, r, rest, s', j, rfl, hd, rfl, rfl, rfl, rfl, rfl, f2, f3, rfl, rfl⟩
+          exact ⟨k, r, rest, s', j, rfl, hd, ha, rfl, rfl, rfl, rfl, f2, f3, rfl, rfl⟩
 
 /-! ### §4 panics -/
 
@@ -549,9 +549,8 @@ theorem userAction_error {shape id : Nat} {X : List Attr} {why : String}
     (h : userAction shape id X = .error why) : why ∈ stepPanics := by
   unfold userAction at h
   repeat' split at h
-  all_goals first
-    | cases h
-    | (cases h; simp [stepPanics])
+  all_goals cases h
+  all_goals simp [stepPanics]
 
 theorem reduceRes_error {cfg : PCfg} {p : Nat} {X : List Attr} {ps : PState} {why : String}
     (h : reduceRes cfg p X ps = .error (some why)) : why ∈ stepPanics := by
@@ -603,12 +602,13 @@ theorem step_panic {cfg : PCfg} {w : List Nat} {ps ps' : PState} {why : String}
     (h : step cfg w ps = .done (.panic why) ps') :
     why ∈ stepPanics ∨ (why = ifaceShift ∧ ¬ RecWF cfg.T cfg.errTerm) := by
   unfold step at h
-  split at h
-  · cases h; simp [stepPanics]
-  · split at h
+  rcases hst : ps.states with _ | ⟨top, rest⟩
+  · rw [hst] at h; cases h; simp [stepPanics]
+  · rw [hst] at h
+    simp only at h
+    split at h
     · cases h; simp [stepPanics]
-    · rename_i top _ _
-      rcases hl : lookupAct cfg.T cfg.errTerm w ps top with ⟨o, ps1⟩ | ⟨a, ps1⟩
+    · rcases hl : lookupAct cfg.T cfg.errTerm w ps top with ⟨o, ps1⟩ | ⟨a, ps1⟩
       · rw [hl] at h
         cases h
         rcases lookupAct_panic hl with rfl | h2
@@ -633,5 +633,408 @@ theorem parseLoop_panic (cfg : PCfg) (w : List Nat) : ∀ (fuel : Nat) (ps : PSt
       exact step_panic hs
     · rw [hs] at h
       exact ih ps1 why h
+
+/-! ### §5 token conservation -/
+
+/-- one iteration: it ends without accepting, or it performs an action `a` that the table holds
+    for the top state and the look-ahead — of the state itself, or of the state after a
+    successful recovery -/
+theorem step_decomp (cfg : PCfg) (w : List Nat) (ps : PState) :
+    (∃ o ps', step cfg w ps = .done o ps' ∧ ∀ r, o ≠ .accept r) ∨
+    (∃ a ps1 top rest, step cfg w ps = doAct cfg w a ps1 ∧ ps1.states = top :: rest ∧
+      cfg.T.act top ps1.next.2 = some a ∧
+      ((ps1 = ps ∧ cfg.T.act top ps.next.2 = some a) ∨
+        ∃ tok, recover cfg.T cfg.errTerm w ps = .ok (true, tok, ps1))) := by
+  rcases hst : ps.states with _ | ⟨top, rest⟩
+  · have : step cfg w ps = .done (.panic "empty stack") ps := by unfold step; rw [hst]
+    exact .inl ⟨_, _, this, by intro r h; cases h⟩
+  · by_cases hn : ps.next.2 ≥ cfg.T.numSymbols
+    · have : step cfg w ps = .done (.panic "index out of range (token type)") ps := by
+        unfold step; rw [hst]; simp only [hn, if_true]
+      exact .inl ⟨_, _, this, by intro r h; cases h⟩
+    · have hs : step cfg w ps = match lookupAct cfg.T cfg.errTerm w ps top with
+          | .error o => .done o.1 o.2
+          | .ok (a, ps) => doAct cfg w a ps := by
+        unfold step; rw [hst]; simp only [hn, if_false]; rfl
+      rcases hl : lookupAct cfg.T cfg.errTerm w ps top with ⟨o, ps1⟩ | ⟨a, ps1⟩
+      · have := lookupAct_log cfg.T cfg.errTerm w ps top
+        rw [hl] at this hs
+        exact .inl ⟨_, _, hs, this.2.2.2⟩
+      · rw [hl] at hs
+        right
+        rcases lookupAct_ok hl with ⟨rfl, ha⟩ | ⟨-, tok, t', rest', hrec, hst', ha⟩
+        · exact ⟨a, _, top, rest, hs, hst, ha, .inl ⟨rfl, ha⟩⟩
+        · exact ⟨a, ps1, t', rest', hs, hst', ha, .inr ⟨tok, hrec⟩⟩
+
+theorem stackToks_cons (a : Attr) (l : List Attr) : stackToks (a :: l) = stackToks l ++ attrToks a := by
+  simp [stackToks, attrToksL_append, attrToksL]
+
+theorem stackToks_split (l : List Attr) (n : Nat) :
+    stackToks l = stackToks (l.drop n) ++ attrToksL (l.take n).reverse := by
+  rw [stackToks, stackToks, ← attrToksL_append, ← List.reverse_append, List.take_append_drop]
+
+theorem userAction_toks {shape id : Nat} {X : List Attr} {a : Attr}
+    (h : userAction shape id X = .ok a) : (attrToks a).Sublist (attrToksL X) := by
+  unfold userAction at h
+  repeat' split at h
+  all_goals cases h
+  · exact List.Sublist.refl _
+  · exact List.Sublist.refl _
+  · exact List.Sublist.refl _
+  · simp [attrToks, attrToksL]
+  · rename_i x hx
+    have := attrToks_sublist_of_mem (List.mem_of_getLast? hx)
+    simpa [attrToks, attrToksL] using this
+  · simp [attrToks, attrToksL]
+
+theorem reduceRes_toks {cfg : PCfg} {p : Nat} {X : List Attr} {ps ps2 : PState} {a : Attr}
+    (h : reduceRes cfg p X ps = .ok (a, ps2)) :
+    (attrToks a).Sublist (attrToksL X) ∧ ps2.next = ps.next ∧ ps2.ntok = ps.ntok := by
+  unfold reduceRes at h
+  split at h
+  · split at h
+    · cases h; exact ⟨by simp [attrToksL], rfl, rfl⟩
+    · cases h
+  · cases h; exact ⟨by simp [attrToks], rfl, rfl⟩
+  · simp only at h
+    split at h
+    · cases h
+    · rcases hu : userAction _ _ X with why' | b
+      · rw [hu] at h; cases h
+      · rw [hu] at h; cases h; exact ⟨userAction_toks hu, rfl, rfl⟩
+
+/-- a continuing action is a shift (pushes the look-ahead, scans) or a reduce (replaces the top
+    `n` attributes by one whose tokens are a sublist, in order, of theirs) -/
+theorem doAct_cont {cfg : PCfg} {w : List Nat} {a : Act} {ps ps' : PState}
+    (h : doAct cfg w a ps = .cont ps') :
+    (∃ s, a = .shift s ∧ ps'.attrs = Attr.tok ps.next.1 ps.next.2 :: ps.attrs ∧
+      ps'.next = scanTok w ps.ntok ∧ ps'.ntok = ps.ntok + 1) ∨
+    (∃ p b n, a = .reduce p ∧ ps'.attrs = b :: ps.attrs.drop n ∧
+      (attrToks b).Sublist (attrToksL (ps.attrs.take n).reverse) ∧
+      ps'.next = ps.next ∧ ps'.ntok = ps.ntok) := by
+  cases a with
+  | accept => simp only [doAct] at h; split at h <;> cases h
+  | shift s => cases h; exact .inl ⟨s, rfl, rfl, rfl, rfl⟩
+  | reduce p =>
+    simp only [doAct] at h
+    split at h
+    · cases h
+    · rcases hres : reduceRes cfg p (List.take (cfg.T.prodLen[p]?.getD 0) ps.attrs).reverse ps with
+        (_ | why') | ⟨b, ps2⟩
+      · rw [hres] at h
+        simp only at h
+        split at h <;> cases h
+      · rw [hres] at h; cases h
+      · rw [hres] at h
+        simp only at h
+        obtain ⟨t1, t2, t3⟩ := reduceRes_toks hres
+        split at h
+        · split at h
+          · cases h
+          · cases h; exact .inr ⟨p, b, _, rfl, rfl, t1, t2, t3⟩
+        · cases h
+
+theorem doAct_accept {cfg : PCfg} {w : List Nat} {a : Act} {ps ps' : PState} {r : Attr}
+    (h : doAct cfg w a ps = .done (.accept r) ps') :
+    ∃ rest, ps.attrs = r :: rest ∧ ps'.next = ps.next ∧ ps'.ntok = ps.ntok := by
+  cases a with
+  | accept =>
+    simp only [doAct] at h
+    split at h
+    · rename_i r' rest hat
+      cases h
+      exact ⟨rest, hat, rfl, rfl⟩
+    · cases h
+  | shift s => cases h
+  | reduce p =>
+    simp only [doAct] at h
+    repeat' split at h
+    all_goals cases h
+
+theorem lookAhead_fst {input : List Nat} {tok : Nat × Nat} {ntok : Nat} (h : tok.1 + 1 = ntok)
+    (j : Nat) : (lookAhead input tok ntok j).1 + 1 = ntok + j := by
+  cases j with
+  | zero => exact h
+  | succ j => simp only [lookAhead, scanTok_fst]; omega
+
+/-- a successful recovery moves the discarded attributes into the error attribute, in order,
+    and only advances the look-ahead -/
+theorem recover_tokInv {T : PTables} {e : Nat} {w : List Nat} {ps ps' : PState} {tok : Nat × Nat}
+    (h : recover T e w ps = .ok (true, tok, ps')) (hI : TokInv ps) : TokInv ps' := by
+  obtain ⟨k, r, rest, s', j, -, -, -, -, hat, hnext, hntok, -⟩ := recover_true h
+  obtain ⟨i1, i2, i3⟩ := hI
+  have hst : stackToks ps'.attrs = stackToks ps.attrs := by
+    rw [hat, stackToks_cons, stackToks_split ps.attrs k]
+    simp [attrToks]
+  have hf := lookAhead_fst (input := w) i3 j
+  refine ⟨by rw [hst]; exact i1, ?_, by rw [hnext, hntok]; exact hf⟩
+  intro i hi
+  rw [hst] at hi
+  have := i2 i hi
+  rw [hnext]
+  omega
+
+def StepR.tokPost : StepR → Prop
+  | .cont ps' => TokInv ps'
+  | .done (.accept r) ps' => (attrToks r).Pairwise (· < ·) ∧ ∀ i ∈ attrToks r, i + 1 < ps'.ntok
+  | .done _ _ => True
+
+theorem StepR.tokPost_of_not_accept {o : Outcome} {ps' : PState} (h : ∀ r, o ≠ .accept r) :
+    (StepR.done o ps').tokPost := by
+  cases o with
+  | accept r => exact absurd rfl (h r)
+  | _ => trivial
+
+theorem doAct_tokInv (cfg : PCfg) (w : List Nat) (a : Act) {ps : PState} (hI : TokInv ps) :
+    (doAct cfg w a ps).tokPost := by
+  obtain ⟨i1, i2, i3⟩ := hI
+  rcases hd : doAct cfg w a ps with ⟨o, ps'⟩ | ps'
+  · by_cases ho : ∃ r, o = .accept r
+    · obtain ⟨r, rfl⟩ := ho
+      obtain ⟨rest, hat, hn, hk⟩ := doAct_accept hd
+      rw [hat, stackToks_cons] at i1 i2
+      refine ⟨(List.pairwise_append.mp i1).2.1, fun i hi => ?_⟩
+      have := i2 i (List.mem_append_right _ hi)
+      omega
+    · exact StepR.tokPost_of_not_accept (fun r h => ho ⟨r, h⟩)
+  · rcases doAct_cont hd with ⟨s, -, hat, hn, hk⟩ | ⟨p, b, n, -, hat, hsub, hn, hk⟩
+    · refine ⟨?_, ?_, by rw [hn, hk, scanTok_fst]⟩
+      · rw [hat, stackToks_cons]
+        simp only [attrToks]
+        rw [List.pairwise_append]
+        refine ⟨i1, by simp, ?_⟩
+        intro x hx y hy
+        simp only [List.mem_singleton] at hy
+        subst hy
+        exact i2 x hx
+      · intro i hi
+        rw [hat, stackToks_cons] at hi
+        simp only [attrToks, List.mem_append, List.mem_singleton] at hi
+        rw [hn, scanTok_fst]
+        rcases hi with hi | rfl
+        · have := i2 i hi; omega
+        · omega
+    · have hsub' : (stackToks ps'.attrs).Sublist (stackToks ps.attrs) := by
+        rw [hat, stackToks_cons, stackToks_split ps.attrs n]
+        exact List.Sublist.append (List.Sublist.refl _) hsub
+      refine ⟨i1.sublist hsub', fun i hi => ?_, by rw [hn, hk]; exact i3⟩
+      rw [hn]
+      exact i2 i (hsub'.subset hi)
+
+/-- (c) `TokInv` is preserved by every iteration of the `Parse` loop, for arbitrary tables -/
+theorem step_tokInv (cfg : PCfg) (w : List Nat) {ps : PState} (hI : TokInv ps) :
+    (step cfg w ps).tokPost := by
+  rcases step_decomp cfg w ps with ⟨o, ps', hs, ho⟩ | ⟨a, ps1, top, rest, hs, -, -, h1⟩
+  · rw [hs]; exact StepR.tokPost_of_not_accept ho
+  · rw [hs]
+    rcases h1 with ⟨rfl, -⟩ | ⟨tok, hrec⟩
+    · exact doAct_tokInv cfg w a hI
+    · exact doAct_tokInv cfg w a (recover_tokInv hrec hI)
+
+theorem parseLoop_tokInv (cfg : PCfg) (w : List Nat) : ∀ (fuel : Nat) (ps : PState), TokInv ps →
+    ∀ r ps', parseLoop cfg w fuel ps = (.accept r, ps') →
+      (attrToks r).Pairwise (· < ·) ∧ ∀ i ∈ attrToks r, i + 1 < ps'.ntok := by
+  intro fuel
+  induction fuel with
+  | zero => intro ps _ r ps' h; simp [parseLoop] at h
+  | succ fuel ih =>
+    intro ps hI r ps' h
+    rw [parseLoop_succ] at h
+    have hp := step_tokInv cfg w hI
+    rcases hs : step cfg w ps with ⟨o, ps1⟩ | ps1
+    · rw [hs] at h hp
+      simp only [StepR.run, Prod.mk.injEq] at h
+      obtain ⟨rfl, rfl⟩ := h
+      exact hp
+    · rw [hs] at h hp
+      exact ih ps1 hp r ps' h
+
+theorem tokInv_init (w : List Nat) :
+    TokInv { states := [0], attrs := [.nil], next := scanTok w 0, ntok := 1, log := [], calls := 0 } := by
+  refine ⟨?_, ?_, ?_⟩
+  · simp [stackToks, attrToksL, attrToks]
+  · simp [stackToks, attrToksL, attrToks]
+  · simp [scanTok_fst]
+
+/-- the look-ahead is the last token scanned, and scanning stops at end of input -/
+def ScanInv (w : List Nat) (ps : PState) : Prop :=
+  ps.next = scanTok w (ps.ntok - 1) ∧ 1 ≤ ps.ntok ∧ ps.ntok ≤ w.length + 1
+
+def StepR.scanPost (w : List Nat) : StepR → Prop
+  | .cont ps' => ScanInv w ps'
+  | .done (.accept _) ps' => ps'.ntok ≤ w.length + 1
+  | .done _ _ => True
+
+theorem StepR.scanPost_of_not_accept {w : List Nat} {o : Outcome} {ps' : PState}
+    (h : ∀ r, o ≠ .accept r) : (StepR.done o ps').scanPost w := by
+  cases o with
+  | accept r => exact absurd rfl (h r)
+  | _ => trivial
+
+theorem recover_scanInv {T : PTables} {e : Nat} {w : List Nat} {ps ps' : PState} {tok : Nat × Nat}
+    (h : recover T e w ps = .ok (true, tok, ps')) (hI : ScanInv w ps) : ScanInv w ps' := by
+  obtain ⟨k, r, rest, s', j, -, -, -, -, -, hnext, hntok, -, hskip, -⟩ := recover_true h
+  obtain ⟨i1, i2, i3⟩ := hI
+  cases j with
+  | zero =>
+    simp only [lookAhead] at hnext
+    exact ⟨by rw [hnext, hntok]; exact i1, by omega, by omega⟩
+  | succ j =>
+    refine ⟨by rw [hnext, hntok]; simp only [lookAhead]; congr 1, by omega, ?_⟩
+    have := (hskip j (by omega)).2
+    cases j with
+    | zero =>
+      simp only [lookAhead] at this
+      rw [i1] at this
+      have := scanTok_lt this
+      omega
+    | succ j =>
+      simp only [lookAhead] at this
+      have := scanTok_lt this
+      omega
+
+theorem doAct_scanInv {cfg : PCfg} (hT : NoShiftEOF cfg.T) (w : List Nat) {a : Act} {ps : PState}
+    {top : Nat} (ha : cfg.T.act top ps.next.2 = some a) (hI : ScanInv w ps) :
+    (doAct cfg w a ps).scanPost w := by
+  obtain ⟨i1, i2, i3⟩ := hI
+  rcases hd : doAct cfg w a ps with ⟨o, ps'⟩ | ps'
+  · by_cases ho : ∃ r, o = .accept r
+    · obtain ⟨r, rfl⟩ := ho
+      obtain ⟨rest, -, -, hk⟩ := doAct_accept hd
+      simp only [StepR.scanPost]
+      omega
+    · exact StepR.scanPost_of_not_accept (fun r h => ho ⟨r, h⟩)
+  · rcases doAct_cont hd with ⟨s, rfl, -, hn, hk⟩ | ⟨p, b, n, -, -, -, hn, hk⟩
+    · have hne : ps.next.2 ≠ 1 := by
+        intro h1
+        rw [h1] at ha
+        exact hT _ _ ha
+      rw [i1] at hne
+      have := scanTok_lt hne
+      exact ⟨by rw [hn, hk]; congr 1, by omega, by omega⟩
+    · exact ⟨by rw [hn, hk]; exact i1, by omega, by omega⟩
+
+theorem step_scanInv {cfg : PCfg} (hT : NoShiftEOF cfg.T) (w : List Nat) {ps : PState}
+    (hI : ScanInv w ps) : (step cfg w ps).scanPost w := by
+  rcases step_decomp cfg w ps with ⟨o, ps', hs, ho⟩ | ⟨a, ps1, top, rest, hs, -, ha, h1⟩
+  · rw [hs]; exact StepR.scanPost_of_not_accept ho
+  · rw [hs]
+    rcases h1 with ⟨rfl, -⟩ | ⟨tok, hrec⟩
+    · exact doAct_scanInv hT w ha hI
+    · exact doAct_scanInv hT w ha (recover_scanInv hrec hI)
+
+theorem parseLoop_scanInv {cfg : PCfg} (hT : NoShiftEOF cfg.T) (w : List Nat) :
+    ∀ (fuel : Nat) (ps : PState), ScanInv w ps →
+    ∀ r ps', parseLoop cfg w fuel ps = (.accept r, ps') → ps'.ntok ≤ w.length + 1 := by
+  intro fuel
+  induction fuel with
+  | zero => intro ps _ r ps' h; simp [parseLoop] at h
+  | succ fuel ih =>
+    intro ps hI r ps' h
+    rw [parseLoop_succ] at h
+    have hp := step_scanInv hT w hI
+    rcases hs : step cfg w ps with ⟨o, ps1⟩ | ps1
+    · rw [hs] at h hp
+      simp only [StepR.run, Prod.mk.injEq] at h
+      obtain ⟨rfl, rfl⟩ := h
+      exact hp
+    · rw [hs] at h hp
+      exact ih ps1 hp r ps' h
+
+theorem noShiftEOF_of_b {T : PTables} (h : noShiftEOFb T = true) : NoShiftEOF T := by
+  intro s s' ha
+  obtain ⟨row, hrow, -, -⟩ := act_eq_some ha
+  have hs : s < T.action.size := (Array.getElem?_eq_some_iff.mp hrow).1
+  simp only [noShiftEOFb, List.all_eq_true, List.mem_range] at h
+  have := h s hs
+  rw [ha] at this
+  cases this
+
+theorem scanInv_init (w : List Nat) :
+    ScanInv w { states := [0], attrs := [.nil], next := scanTok w 0, ntok := 1, log := [], calls := 0 } :=
+  ⟨rfl, by simp, by simp⟩
+
+theorem parse_tokens_any {cfg : PCfg} {w : List Nat} {fuel : Nat} {old ps : PState} {r : Attr}
+    (h : parse cfg w fuel old = (.accept r, ps)) :
+    (attrToks r).Pairwise (· < ·) ∧ ∀ i ∈ attrToks r, i + 1 < ps.ntok :=
+  parseLoop_tokInv cfg w fuel _ (tokInv_init w) r ps h
+
+theorem parse_tokens {cfg : PCfg} (hT : NoShiftEOF cfg.T) {w : List Nat} {fuel : Nat}
+    {old ps : PState} {r : Attr} (h : parse cfg w fuel old = (.accept r, ps)) :
+    (attrToks r).Pairwise (· < ·) ∧ ∀ i ∈ attrToks r, i < w.length := by
+  obtain ⟨h1, h2⟩ := parse_tokens_any h
+  have h3 := parseLoop_scanInv hT w fuel _ (scanInv_init w) r ps h
+  refine ⟨h1, fun i hi => ?_⟩
+  have := h2 i hi
+  omega
+
+/-! ### §6 recovery is inert as long as no action lookup fails -/
+
+theorem lookupAct_some {T : PTables} {e : Nat} {w : List Nat} {ps : PState} {top : Nat} {a : Act}
+    (ha : T.act top ps.next.2 = some a) : lookupAct T e w ps top = .ok (a, ps) := by
+  unfold lookupAct; rw [ha]
+
+theorem topRecovery_noRecovery (T : PTables) (l : List Nat) : topRecovery T.noRecovery l = none := by
+  unfold topRecovery
+  rw [List.findIdx?_eq_none_iff]
+  intro x _
+  simp [PTables.noRecovery]
+
+theorem doAct_noRecovery (cfg : PCfg) (w : List Nat) (a : Act) (ps : PState) :
+    doAct cfg.noRecovery w a ps = doAct cfg w a ps := by
+  cases a <;> rfl
+
+/-- while the action lookup succeeds an iteration does not look at `canRecover` or the error
+    terminal; at the first failed lookup the parser without recovery states stops with a syntax
+    error -/
+theorem step_noRecovery (cfg : PCfg) (w : List Nat) (ps : PState) :
+    step cfg w ps = step cfg.noRecovery w ps ∨
+    ∃ top rest, ps.states = top :: rest ∧ cfg.T.act top ps.next.2 = none ∧
+      step cfg.noRecovery w ps =
+        .done (.synErr ps.next.1 ps.next.2 (cfg.T.rowExpected top) top) ps := by
+  rcases hst : ps.states with _ | ⟨top, rest⟩
+  · left; unfold step; rw [hst]
+  · by_cases hn : ps.next.2 ≥ cfg.T.numSymbols
+    · left
+      have hn' : ps.next.2 ≥ cfg.noRecovery.T.numSymbols := hn
+      unfold step; rw [hst]; simp only [hn, hn', if_true]
+    · have hn' : ¬ ps.next.2 ≥ cfg.noRecovery.T.numSymbols := hn
+      rcases ha : cfg.T.act top ps.next.2 with _ | a
+      · right
+        refine ⟨top, rest, rfl, ha, ?_⟩
+        have hrec : recover cfg.noRecovery.T cfg.noRecovery.errTerm w ps = .ok (false, ps.next, ps) :=
+          recover_none (topRecovery_noRecovery _ _) (by rw [hst]; simp)
+        have hl : lookupAct cfg.noRecovery.T cfg.noRecovery.errTerm w ps top =
+            .error (.synErr ps.next.1 ps.next.2 (cfg.T.rowExpected top) top, ps) := by
+          unfold lookupAct
+          have ha' : cfg.noRecovery.T.act top ps.next.2 = none := ha
+          rw [ha', hrec]
+          simp only [hst]
+          rfl
+        unfold step; rw [hst]; simp only [hn', if_false, hl]
+      · left
+        have ha' : cfg.noRecovery.T.act top ps.next.2 = some a := ha
+        unfold step; rw [hst]
+        simp only [hn, hn', if_false, lookupAct_some ha, lookupAct_some ha', doAct_noRecovery]
+
+/-- (d) lock-step with the parser without recovery states until the first failed lookup -/
+theorem parseLoop_noRecovery (cfg : PCfg) (w : List Nat) : ∀ (fuel : Nat) (ps : PState),
+    (∀ i t e s, (parseLoop cfg.noRecovery w fuel ps).1 ≠ .synErr i t e s) →
+    parseLoop cfg w fuel ps = parseLoop cfg.noRecovery w fuel ps := by
+  intro fuel
+  induction fuel with
+  | zero => intro ps _; rfl
+  | succ fuel ih =>
+    intro ps h
+    rw [parseLoop_succ] at h ⊢
+    rw [parseLoop_succ]
+    rcases step_noRecovery cfg w ps with heq | ⟨top, rest, -, -, hs⟩
+    · rw [heq]
+      rcases hs : step cfg.noRecovery w ps with ⟨o, ps1⟩ | ps1
+      · rfl
+      · rw [hs] at h
+        exact ih ps1 h
+    · rw [hs] at h
+      exact absurd rfl (h _ _ _ _)
 
 end Gocc
